@@ -18,10 +18,7 @@ Theorem C12_validate_sound :
       exists rs, lookup p gp = Some rs /\
         forall v, In v (flatten K t) ->
           exists r, In r rs /\ leb (sub (lo r) (atol r)) v = true /\ leb v (add (hi r) (atol r)) = true.
-Proof.
-  intros K add sub leb gp ps. rewrite validate_ok. split; intros H p t Hin; destruct (H p t Hin) as [rs [Hl Hv]];
-    exists rs; split; auto; intros v Hvin; apply (in_ranges_spec K add sub leb rs v); auto.
-Qed.
+Proof. exact validate_sound_full. Qed.
 Print Assumptions C12_validate_sound.
 
 Theorem C12_validate_unknown_parameter :
@@ -50,6 +47,55 @@ Qed.
 Print Assumptions C12_counts.
 
 (* ---- Xunitary: merge of repeated two-mode squeezers ------------------------------------------------ *)
+(* B: the S2gate commands as returned by group_operations, N = half the number of modes, `miss` the order in
+   which Python iterates over the set of pairs without squeezer.  Hypotheses: every command sits on an allowed
+   pair (otherwise the stage raises CircuitError 2), `miss` enumerates exactly the allowed pairs that have no
+   squeezer (ANY duplicate-free enumeration: the result may not depend on set order), and AT MOST ONE pair carries
+   more than one squeezer (this last hypothesis excludes the recorded findings xunitary:s2-merge:*, see the two
+   _refuted theorems below).  Conclusion, for every multiplicity: no IndexError; CircuitError 3 only if two
+   successive squeezers of the repeated pair have different phases (`phases_agree` is the chain of `phi_new != phi`
+   tests in visiting order, last occurrence first); otherwise exactly N commands, exactly one per pair (i, i+N):
+   S2gate(0,0) if the source had none, the source command itself if it had one, and otherwise
+   S2gate(sum of the source r's added from the last occurrence to the first starting from 0, phase of the first). *)
+Theorem C12_s2_merge :
+  forall (K : Type) (kzero : K) (kadd : K -> K -> K) (kneq : K -> K -> bool) (N : nat) (miss : list nat) (B : list (s2 K)),
+    forallb (allowed K N) B = true ->
+    NoDup miss ->
+    (forall i, In i miss <-> i < N /\ ~ In (i, i + N) (map (s2key K) B)) ->
+    (forall k1 k2, 1 < count_key k1 (map (s2key K) B) -> 1 < count_key k2 (map (s2key K) B) -> k1 = k2) ->
+    match s2_stage K kzero kadd kneq N miss B with
+    | IndexErr => False
+    | CircuitErr c =>
+        c = 3 /\ exists k, 1 < count_key k (map (s2key K) B) /\
+                  phases_agree K kneq (rev (filter (fun x => key_eqb (s2key K x) k) B)) = false
+    | Ok out =>
+        length out = N /\
+        forall i, i < N ->
+          exists c, filter (fun x => key_eqb (s2key K x) (i, i + N)) out = [c] /\ mi c = i /\ mj c = i + N /\
+            match filter (fun x => key_eqb (s2key K x) (i, i + N)) B with
+            | [] => c = mkS2 i (i + N) kzero kzero
+            | [b] => c = b
+            | bs => c = mkS2 i (i + N) (fold_left kadd (map sr (rev bs)) kzero) (last (map sphi (rev bs)) kzero)
+                    /\ phases_agree K kneq (rev bs) = true
+            end
+    end.
+Proof. exact s2_stage_correct. Qed.
+Print Assumptions C12_s2_merge.
+
+(* one iteration of the merge loop is correct for ANY list (several repeated pairs included) as long as the
+   locations were computed on the list it is applied to: the defect is only the staleness of the indices *)
+Theorem C12_s2_merge_one_step :
+  forall (K : Type) (kzero : K) (kadd : K -> K -> K) (kneq : K -> K -> bool) (k : key) (B : list (s2 K)),
+    let bs := filter (fun x => key_eqb (s2key K x) k) B in
+    merge_loop K kzero kadd kneq [(k, positions k (map (s2key K) B))] B =
+      if phases_agree K kneq (rev bs)
+      then Ok (insert_at (hd 0 (positions k (map (s2key K) B)))
+                 (mkS2 (fst k) (snd k) (fold_left kadd (map sr (rev bs)) kzero) (last (map sphi (rev bs)) kzero))
+                 (filter (fun c => negb (key_eqb (s2key K c) k)) B))
+      else CircuitErr 3.
+Proof. exact merge_one. Qed.
+Print Assumptions C12_s2_merge_one_step.
+
 (* the excluded case is real: with two duplicated pairs the pre-computed indices are stale *)
 Theorem C12_s2_merge_refuted_indexerror :
   exists (N : nat) (miss : list nat) (B : list (s2 Z)),
@@ -101,9 +147,7 @@ Theorem C12_borealis_insert :
   forall circ seq out uo, insert_offsets circ seq = Some (out, uo) ->
     subseq seq out /\ length circ <= length out /\
     forall i c, nth_error circ i = Some c -> exists o, nth_error out i = Some o /\ ops_equal c o = true.
-Proof.
-  intros circ seq out uo H. split; [exact (insert_offsets_subseq circ seq out uo H) | exact (insert_offsets_matches circ seq out uo H)].
-Qed.
+Proof. exact insert_offsets_full. Qed.
 Print Assumptions C12_borealis_insert.
 
 (* hypotheses are satisfiable / the functions are not vacuous *)
